@@ -13,8 +13,7 @@ pub struct WorkerHandle {
     pub max_job_wall_us: u64,
     pub respawns: u64,
     budget_ms: u64,
-    /// re-run a timed-out job once, alone, with ten times the budget (C06 only)
-    pub retry: bool,
+    pub last_wall_us: u64,
 }
 
 enum Attempt {
@@ -68,7 +67,7 @@ impl WorkerHandle {
             max_job_wall_us: 0,
             respawns: 0,
             budget_ms,
-            retry: false,
+            last_wall_us: 0,
         }
     }
 
@@ -147,22 +146,26 @@ impl WorkerHandle {
         }
     }
 
-    pub fn run(&mut self, job: &Job) -> JobResult {
+    /// one attempt under the given CPU budget; exceeding it is reported as Hang (the worker is replaced)
+    pub fn run_budget(&mut self, job: &Job, budget_ms: u64) -> JobResult {
         self.jobs_run += 1;
         let bytes = serde_json::to_vec(job).unwrap();
-        match self.attempt(&bytes, self.budget_ms) {
+        let t0 = Instant::now();
+        let r = match self.attempt(&bytes, budget_ms) {
             Attempt::Done(o) => JobResult::Done(o),
             Attempt::Died(s) => JobResult::Died(s),
-            Attempt::TimedOut if !self.retry => JobResult::Hang,
-            Attempt::TimedOut => {
-                // once more, alone in a fresh worker, with ten times the budget
-                match self.attempt(&bytes, self.budget_ms * 10) {
-                    Attempt::Done(o) => JobResult::Done(o),
-                    Attempt::Died(s) => JobResult::Died(s),
-                    Attempt::TimedOut => JobResult::Hang,
-                }
-            }
-        }
+            Attempt::TimedOut => JobResult::Hang,
+        };
+        self.last_wall_us = t0.elapsed().as_micros() as u64;
+        r
+    }
+
+    pub fn run(&mut self, job: &Job) -> JobResult {
+        self.run_budget(job, self.budget_ms)
+    }
+
+    pub fn budget_ms(&self) -> u64 {
+        self.budget_ms
     }
 }
 
